@@ -101,7 +101,8 @@ func (c07) Info() core.Info {
 		Title: "ORDER BY returns a sorted permutation of the unordered result",
 		Level: "exploration",
 		Rule: "select lists with key, value, aliased number / text / Boolean expressions (int, float, upper, is_int, a prefix test), fields defined through other fields, and aggregate lists (sum over int, float and mixed text, count, min) grouped by a key prefix; every sequence of 1..2 (fixed stores: 3) distinct order fields x every asc/desc/default combination; stores = all stores of <= 4 pairs over keys {a,ab,b,c} x values {1,2,10,1.5} (duplicates, ties, int/float mixes) plus text-valued, 7- and 70-pair stores; row and batch (B in {1,2,32}). " +
-			"Oracle: the ordered rows are a permutation of the rows of the same statement without ORDER BY, every adjacent pair is non-decreasing under an independent comparator (lexicographic over the order fields; text byte-wise, numbers numerically across int/float, false < true, direction per field), and a lone `order by key asc` leaves the sequence unchanged; the same statement under `limit s, n` (three windows) returns that window of the sorted sequence (compared on the order columns, ties being interchangeable). Non-trivial: >= 2 rows and the ordered sequence differs from the unordered one. Distinct: (statement, store, mode, B).",
+			"Oracle: the ordered rows are a permutation of the rows of the same statement without ORDER BY, every adjacent pair is non-decreasing under an independent comparator (lexicographic over the order fields; text byte-wise, numbers numerically across int/float, false < true, direction per field), and a lone `order by key asc` leaves the sequence unchanged; the same statement under `limit s, n` (three windows) returns that window of the sorted sequence (compared on the order columns, ties being interchangeable). Non-trivial: >= 2 rows and the ordered sequence differs from the unordered one. Distinct: (statement, store, mode, B)." +
+			" Also: a field listed twice ahead of another one (27 direction triples per ordered pair, fixed stores); two select lists over values {2, NaN, 1, 3.5} judged on the rows whose order columns are all numbers; a len() order column (a Go int); on the fixed stores, for <= 2 order fields, both plans polled once / twice / to their end, re-armed with Init() and executed again.",
 		Assumptions: []string{"columns whose two values are of different kinds other than int/float (text vs number) are not compared (no documented order)"},
 	}
 }
